@@ -15,8 +15,10 @@
 from __future__ import annotations
 
 import ast
+import itertools
 
-from ..loader import AnalysisError, dotted, norm, walk_no_nested
+from ..flow import Defs, Scope, all_defs_text, arg, bool_atoms, bool_eval, guards, iterations, nnf, rejections
+from ..loader import dotted, norm, walk_no_nested
 from ..report import Ctx
 from ..selftest import Mutant
 from . import kinds_driver
@@ -38,129 +40,220 @@ DECLINED = [
 ]
 
 
-def check(ctx: Ctx) -> None:  # noqa: C901, PLR0915
-    P, cg = ctx.prog, ctx.cg
-    # ------------------------------------------------------------ 1 sequence
+def rule_sequence(ctx: Ctx) -> None:
+    P = ctx.prog
     findings, stats = kinds_driver.analyse(ctx, (AD, f"{RUN}"))
     mine = [f for f in findings if f.fn.module.name == AD or f.fn.name in ("_mask_fixed_axes", "_existing_and_missing_indices")]
     kinds_driver.emit(ctx, "1-sequence", mine, 12)
     ctx.note(f"kind analysis: {stats}")
     ln = P.func(f"{AD}._learner")
-    src = norm(ln.node)
-    ok = "sequence = _sequence(fixed_indices, func.mapspec, shape, mask)" in src and "functools.partial(_execute_iteration_in_map_spec" in src and "return SequenceLearner(f, sequence)" in src
-    ctx.add("1-sequence", ln, ln.node, ok, "the learner runs _execute_iteration_in_map_spec over _sequence(...)" if ok else "_learner no longer pairs _execute_iteration_in_map_spec with _sequence", key="learner-wiring")
+    d = Defs(ln)
+    mk = [c for c in ast.walk(ln.node) if isinstance(c, ast.Call) and dotted(c.func).endswith("SequenceLearner") and len(c.args) >= 2]
+    if mk:
+        f_txt, s_txt = (norm(d.resolve(a_)) + " " + (all_defs_text(ln.node, a_.id) if isinstance(a_, ast.Name) else "") for a_ in mk[0].args[:2])
+        ctx.tri("1-sequence", ln, mk[0], "_execute_iteration_in_map_spec" in f_txt and "_sequence(" in s_txt, False, "the learner runs _execute_iteration_in_map_spec over _sequence(...)", "",
+                f"SequenceLearner({f_txt[:40]}, {s_txt[:40]}) not recognised", key="learner-wiring")
     ex = P.func(f"{AD}._execute_iteration_in_map_spec")
-    ok = ex.param_names()[0] == "index"
-    ctx.add("1-sequence", ex, ex.node, ok, "the sequence element is the first positional parameter `index`" if ok else "the consumer's first parameter is not the sequence element", key="consumer-param")
+    ctx.tri("1-sequence", ex, ex.node, ex.param_names()[:1] == ["index"], False, "the sequence element is the first positional parameter `index`", "", "first parameter is not called `index`; its kind seed does not apply", key="consumer-param")
 
-    # ------------------------------------------------------------ 2 one-mask
-    users = {s.caller.qualname for s in cg.call_sites_of(f"{RUN}._mask_fixed_axes")}
-    ok = {f"{RUN}._prepare_submit_map_spec", f"{AD}._sequence"} <= users
-    ctx.add("2-one-mask", f"{RUN}._mask_fixed_axes", P.func(f"{RUN}._mask_fixed_axes").loc, ok, "map path and learner path share _mask_fixed_axes" if ok else f"_mask_fixed_axes is used by {sorted(users)} only", key="shared")
+
+def rule_one_mask(ctx: Ctx) -> None:
+    P = ctx.prog
+    sq = P.func(f"{AD}._sequence")
+    fi = [p for p in sq.param_names() if "fixed" in p]
+    if fi:
+        uses = [n for n in ast.walk(sq.node) if isinstance(n, ast.Name) and n.id == fi[0] and isinstance(n.ctx, ast.Load)]
+        par = {id(c): p for p in ast.walk(sq.node) for c in ast.iter_child_nodes(p)}
+        real = [u for u in uses if not (isinstance(par.get(id(u)), ast.Compare) and all(isinstance(o, (ast.Is, ast.IsNot)) for o in par[id(u)].ops))]
+        ctx.add("2-one-mask", sq, sq.node, bool(real), f"the learner's sequence depends on `{fi[0]}`" if real else f"`{fi[0]}` never reaches the computation of the learner's sequence: the learner ignores the selection", key="sequence-uses-selection")
+    shared = f"{RUN}._mask_fixed_axes" in ctx.cg.reachable(f"{AD}._sequence") and f"{RUN}._mask_fixed_axes" in ctx.cg.reachable(f"{RUN}._prepare_submit_map_spec")
+    ctx.tri("2-one-mask", f"{RUN}._mask_fixed_axes", P.func(f"{RUN}._mask_fixed_axes").loc, shared, False, "map path and learner path derive the selection from the same function (_mask_fixed_axes)", "",
+            "map path and learner path do not both reach _mask_fixed_axes", key="shared")
     mf = P.func(f"{RUN}._mask_fixed_axes")
-    keys = [s for s in walk_no_nested(mf.node) if isinstance(s, ast.Assign) and norm(s.targets[0]) == "key"]
-    ok = bool(keys) and norm(keys[0].value) == "tuple((fixed_indices.get(axis, slice(None)) for axis in mapspec.output_indices))"
-    ctx.add("2-one-mask", mf, keys[0] if keys else mf.node, ok, "one entry per output axis: the user's int/slice, or a full slice" if ok else "the selection key is no longer the user's entries (or slice(None)) per output axis", key="key-def")
-    trans = [c for c in ast.walk(mf.node) if isinstance(c, ast.Call) and (dotted(c.func) in ("slice", "range") and c.args and not (len(c.args) == 1 and isinstance(c.args[0], ast.Constant) and c.args[0].value is None)
-                                                                          or (isinstance(c.func, ast.Attribute) and c.func.attr == "indices"))]
+    its = [it for it in iterations(mf.node) if ".get(" in norm(getattr(it["node"], "elt", it["node"]))]
+    by_out = [it for it in its if norm(it["iter"]).endswith(".output_indices")]
+    other = [it for it in its if not norm(it["iter"]).endswith(".output_indices")]
+    ctx.tri("2-one-mask", mf, (other or by_out or [{"node": mf.node}])[0]["node"], bool(by_out) and "slice(None)" in norm(mf.node) and not other, bool(other),
+            "one entry per output axis: the user's int/slice, or a full slice", f"the selection key is enumerated over `{norm(other[0]['iter']) if other else ''}`, not over the output axes: entries land on the wrong axis",
+            "construction of the selection key not recognised", key="key-def")
+    trans = [c for _f, c in Scope(ctx, mf).walk() if isinstance(c, ast.Call) and (dotted(c.func) in ("slice", "range") and c.args and not (len(c.args) == 1 and isinstance(c.args[0], ast.Constant) and c.args[0].value is None)
+                                                                                    or (isinstance(c.func, ast.Attribute) and c.func.attr == "indices"))]
     ctx.add("2-one-mask", mf, trans[0] if trans else mf.node, not trans, "slices reach NumPy unchanged" if not trans else
             f"`{norm(trans[0])[:50]}` rewrites the user's slice before indexing: slice.indices() yields stop=-1 for a negative step down to 0, which NumPy reads as 'last element' (empty selection)", key="no-slice-rewrite")
-    src = norm(mf.node)
-    ok = "select: npt.NDArray[np.bool_] = np.zeros(external_shape, dtype=bool)" in src and "select[external_key] = True" in src and "return select.flat" in src and "if fixed_indices is None" in src
-    ctx.add("2-one-mask", mf, mf.node, ok, "a boolean array over the external shape, True at the selected positions, flattened in C order" if ok else "_mask_fixed_axes construction changed", key="construction")
-    sq = P.func(f"{AD}._sequence")
-    ok = "np.flatnonzero(fixed_mask)" in norm(sq.node)
-    ctx.add("2-one-mask", sq, sq.node, ok, "learner sequence = positions where the selection mask is True" if ok else "the learner sequence is not derived from the selection mask", key="flatnonzero")
+    t = norm(sq.node)
+    ctx.tri("2-one-mask", sq, sq.node, any(w in t for w in ("flatnonzero(", "nonzero(", "np.where(")), False, "learner sequence = positions where the selection mask is True", "", "derivation of the sequence from the mask not recognised", key="flatnonzero")
 
-    # ------------------------------------------------------------ 3 validated
+
+def _reduced_table(e: ast.AST) -> dict | None:
+    atoms = bool_atoms(e)
+    want = {"name in func.parameters": "A", "func.mapspec is None": "B", "name in func.mapspec.input_names": "C"}
+    if not set(atoms) <= set(want):
+        return None
+    table = {}
+    for a_, b_, c_ in itertools.product((True, False), repeat=3):
+        if b_ and c_:
+            continue  # no MapSpec -> no MapSpec inputs
+        env = {"name in func.parameters": a_, "func.mapspec is None": b_, "name in func.mapspec.input_names": c_}
+        v = bool_eval(e, env)
+        # with short-circuit evaluation C is never read when B holds
+        table[(a_, b_, c_)] = v
+    return table
+
+
+def rule_validated(ctx: Ctx) -> None:  # noqa: C901, PLR0915
+    P = ctx.prog
     prep = P.func(f"{PREP}.prepare_run")
     cfg = ctx.cfg(prep)
-    v = cfg.nodes(lambda s: isinstance(s, ast.Expr) and isinstance(s.value, ast.Call) and dotted(s.value.func) == "_validate_fixed_indices")
-    c = cfg.nodes(lambda s: any(isinstance(x, ast.Call) and dotted(x.func).endswith("RunInfo.create") for x in ast.walk(s)))
-    ok = bool(v) and bool(c) and cfg.dominates(v[0], c[0]) and [norm(a) for a in cfg.stmt[v[0]].value.args] == ["fixed_indices", "inputs", "pipeline"]
-    ctx.add("3-validated", prep, cfg.stmt[v[0]] if v else prep.node, ok, "prepare_run validates fixed_indices before the run is created" if ok else "prepare_run does not validate fixed_indices first", key="prepare-run")
+    v = cfg.nodes(lambda s: not isinstance(s, (ast.If, ast.For)) and any(isinstance(x, ast.Call) and dotted(x.func) == "_validate_fixed_indices" for x in ast.walk(s)))
+    c = cfg.nodes(lambda s: not isinstance(s, (ast.If, ast.For)) and any(isinstance(x, ast.Call) and dotted(x.func).endswith("RunInfo.create") for x in ast.walk(s)))
+    anywhere = bool(Scope(ctx, prep).calls("_validate_fixed_indices"))
+    if c:
+        ok = bool(v) and all(any(cfg.dominates(v_, c_) for v_ in v) for c_ in c)
+        ctx.tri("3-validated", prep, cfg.stmt[c[0]], ok, not anywhere or (bool(v) and not ok), "prepare_run validates fixed_indices before the run is created",
+                "prepare_run creates the run (and its folder) without validating fixed_indices first: an out-of-range or reduced selection is accepted", "validation happens in a helper; dominance not decided", key="prepare-run")
+    else:
+        ctx.add("3-validated", prep, prep.node, None, "UNDECIDED: RunInfo.create call not found in prepare_run", key="prepare-run")
     mi = P.func(f"{AD}._maybe_iterate_axes")
     cfg = ctx.cfg(mi)
     ys = cfg.nodes(lambda s: isinstance(s, ast.Expr) and isinstance(s.value, ast.Yield) and s.value.value is not None and norm(s.value.value) != "None")
-    vs = cfg.nodes(lambda s: isinstance(s, ast.Expr) and isinstance(s.value, ast.Call) and dotted(s.value.func) == "_validate_fixed_indices")
-    ok = len(ys) >= 2
-    for y in ys:
-        what = norm(cfg.stmt[y].value.value)
-        ok &= any(cfg.dominates(v_, y) and norm(cfg.stmt[v_].value.args[0]) == what for v_ in vs)
-    ctx.add("3-validated", mi, mi.node, ok, f"each of the {len(ys)} yielded selections was validated first" if ok else "_maybe_iterate_axes yields a selection that was not validated", key="learner-entry")
+    vs = cfg.nodes(lambda s: isinstance(s, ast.Expr) and isinstance(s.value, ast.Call) and dotted(s.value.func) == "_validate_fixed_indices" and s.value.args)
+    unvalidated = [y for y in ys if not any(cfg.dominates(v_, y) and norm(cfg.stmt[v_].value.args[0]) == norm(cfg.stmt[y].value.value) for v_ in vs)]
+    ctx.tri("3-validated", mi, cfg.stmt[unvalidated[0]] if unvalidated else mi.node, bool(ys) and not unvalidated, bool(unvalidated),
+            f"each of the {len(ys)} yielded selections was validated first", f"`{norm(cfg.stmt[unvalidated[0]])[:50] if unvalidated else ''}` hands out a selection that was not validated: the learners run with out-of-range / reduced axes", key="learner-entry")
     cl = P.func(f"{AD}.create_learners")
-    ok = "_maybe_iterate_axes(pipeline, inputs, fixed_indices, split_independent_axes, run_info.internal_shapes)" in norm(cl.node) and "fixed_indices=_fixed_indices" in norm(cl.node)
-    ctx.add("3-validated", cl, cl.node, ok, "create_learners only uses selections that come out of _maybe_iterate_axes" if ok else "create_learners uses fixed_indices without going through _maybe_iterate_axes", key="create-learners")
+    src_loops = [it for it in iterations(cl.node) if "_maybe_iterate_axes(" in norm(Defs(cl).resolve(it["iter"]))]
+    if src_loops:
+        lv = norm(src_loops[0]["target"])
+        passed = [norm(k.value) for c_ in ast.walk(src_loops[0]["node"]) if isinstance(c_, ast.Call) for k in c_.keywords if k.arg == "fixed_indices"] + \
+                 [norm(a_) for c_ in ast.walk(src_loops[0]["node"]) if isinstance(c_, ast.Call) and dotted(c_.func) in ("_learner", "LearnerPipeFunc") for a_ in c_.args]
+        raw = [p_ for p_ in passed if p_ == "fixed_indices" and lv != "fixed_indices"]
+        ctx.tri("3-validated", cl, src_loops[0]["node"], lv in passed and not raw, bool(raw), "create_learners only uses selections that come out of _maybe_iterate_axes",
+                "create_learners passes the caller's raw fixed_indices on instead of the validated selection", "use of the validated selection not recognised", key="create-learners")
+    else:
+        ctx.add("3-validated", cl, cl.node, None, "UNDECIDED: no loop over _maybe_iterate_axes(...)", key="create-learners")
     vf = P.func(f"{PREP}._validate_fixed_indices")
-    src = norm(vf.node)
-    rs = [r for r in ast.walk(vf.node) if isinstance(r, ast.Raise)]
-    kinds = [norm(r.exc).split("(")[0] if r.exc is not None else "" for r in rs]
-    ok = kinds.count("IndexError") == 1 and kinds.count("ValueError") >= 2
-    ctx.add("3-validated", vf, vf.node, ok, "three rejections: out-of-range (IndexError), unknown axis and reduced axis (ValueError)" if ok else f"_validate_fixed_indices raises {kinds}", key="three-rejections")
-    ok = "inputs[parameter][key]" in src and "except IndexError as e" in src and "key = tuple((fixed_indices.get(axis, slice(None)) for axis in axes_))" in src
-    ctx.add("3-validated", vf, vf.node, ok, "every mapped input is indexed with the requested selection to detect out-of-range entries" if ok else "the out-of-range probe of _validate_fixed_indices changed", key="range-probe")
-    ok = "extra = set(fixed_indices)" in src and "extra.discard(axis)" in src and "if extra" in src
-    ctx.add("3-validated", vf, vf.node, ok, "axes that no MapSpec knows are rejected" if ok else "unknown axes are no longer rejected", key="unknown-axis")
-    ok = "reduced_axes = _reduced_axes(pipeline)" in src and "reduced := set(axes_set) & set(fixed_indices)" in src.replace("(reduced := (set(axes_set) & set(fixed_indices)))", "reduced := set(axes_set) & set(fixed_indices)")
-    ctx.add("3-validated", vf, vf.node, ok, "a fixed axis that is reduced anywhere is rejected" if ok else "reduced axes are no longer rejected", key="reduced-axis")
+    rej = [r for r in rejections(ctx.cfg(vf), vf.node, Defs(vf)) if not r["dead"]]
+    probe = [t for t in ast.walk(vf.node) if isinstance(t, ast.Try) and any(isinstance(x, ast.Subscript) and "inputs[" in norm(x) for st in t.body for x in ast.walk(st))
+             and any(h.type is not None and "IndexError" in norm(h.type) and any(isinstance(x, ast.Raise) for x in ast.walk(h)) for h in t.handlers)]
+    ctx.tri("3-validated", vf, probe[0] if probe else vf.node, bool(probe), False, "every mapped input is indexed with the requested selection to detect out-of-range entries", "", "out-of-range probe not recognised", key="range-probe")
+    ctx.tri("3-validated", vf, vf.node, len(rej) >= 2, len(rej) == 0, f"{len(rej)} rejections besides the range probe (unknown axis, reduced axis)", "_validate_fixed_indices never rejects anything", f"only {len(rej)} rejection(s) found", key="rejections")
+    red = [r for r in rej if any("reduced" in c_ or "_reduced_axes" in c_ for c_ in r["conds"])]
+    ctx.tri("3-validated", vf, red[0]["node"] if red else vf.node, bool(red), "_reduced_axes" not in Scope(ctx, vf).text(), "a fixed axis that is reduced anywhere is rejected",
+            "_validate_fixed_indices never consults _reduced_axes: fixing a reduced axis is accepted and the reduction sees a partial array", "reduced-axis rejection not recognised", key="reduced-axis")
     ir = P.func(f"{PREP}._is_parameter_reduced_by_function")
-    ret = [r for r in walk_no_nested(ir.node) if isinstance(r, ast.Return)][-1]
-    ok = norm(ret.value) == "name in func.parameters and (func.mapspec is None or name not in func.mapspec.input_names)"
-    ctx.add("3-validated", ir, ret, ok, "reduced = consumed whole: by a function without MapSpec OR outside the consumer's MapSpec inputs" if ok else
-            f"`{norm(ret.value)[:90]}`: a mapped consumer that takes the array whole (not in its MapSpec inputs) no longer counts as a reduction", key="reduced-predicate")
-    ipr = P.func(f"{PREP}._is_parameter_partially_reduced_by_function")
-    ok = "return None in spec.axes" in norm(ipr.node)
-    ctx.add("3-validated", ipr, ipr.node, ok, "partially reduced = ':' in the consumer's axes" if ok else "partial reduction detection changed", key="partial-predicate")
-    gp = P.func(f"{PREP}._get_partially_reduced_axes")
-    ok = "tuple((ax for ax, spec_ax in zip(axes[name], spec.axes) if spec_ax is None))" in norm(gp.node)
-    ctx.add("3-validated", gp, gp.node, ok, "the reduced axis names are those at the ':' positions" if ok else "_get_partially_reduced_axes changed", key="partial-axes")
+    rets = [r for r in walk_no_nested(ir.node) if isinstance(r, ast.Return) and r.value is not None]
+    if len(rets) == 1:
+        table = _reduced_table(Defs(ir).resolve(rets[0].value))
+        if table is None:
+            ctx.add("3-validated", ir, rets[0], None, "UNDECIDED: predicate uses other atoms than (in parameters, mapspec is None, in mapspec inputs)", key="reduced-predicate")
+        else:
+            want = {k: (k[0] and (k[1] or not k[2])) for k in table}
+            wrong = [k for k in table if table[k] is not None and table[k] != want[k]]
+            ctx.add("3-validated", ir, rets[0], not wrong, "reduced = consumed whole: by a function without MapSpec OR outside the consumer's MapSpec inputs" if not wrong else
+                    f"`{norm(rets[0].value)[:90]}` differs from `in parameters and (no MapSpec or not a MapSpec input)` for (in parameters, no MapSpec, MapSpec input) = {wrong}: e.g. a mapped consumer that takes the array whole no longer counts as a reduction", key="reduced-predicate")
+    else:
+        ctx.add("3-validated", ir, ir.node, None, "UNDECIDED: predicate is not a single returned expression", key="reduced-predicate")
     ra = P.func(f"{PREP}._reduced_axes")
-    ok = "for name in pipeline.mapspec_names" in norm(ra.node) and "for func in pipeline.functions" in norm(ra.node) and "reduced_axes[name].update(axes[name])" in norm(ra.node)
-    ctx.add("3-validated", ra, ra.node, ok, "every (array, consumer) pair is examined" if ok else "_reduced_axes no longer examines every array/consumer pair", key="all-pairs")
+    its = iterations(ra.node)
+    names_it = [it for it in its if "mapspec_names" in norm(it["iter"])]
+    funcs_it = [it for it in its if norm(it["iter"]).endswith(".functions")]
+    partial = [it for it in names_it + funcs_it if isinstance(it["iter"], ast.Subscript)]
+    ctx.tri("3-validated", ra, ra.node, bool(names_it) and bool(funcs_it) and not partial, bool(partial), "every (array, consumer) pair is examined", "only part of the arrays/consumers is examined for reductions", "iteration over arrays x consumers not recognised", key="all-pairs")
 
-    # ------------------------------------------------------------ 4 skip
+
+def _conds_of(node: ast.AST, root: ast.AST) -> list[str]:
+    """nnf conditions under which `node` executes inside `root` (enclosing ifs and preceding `continue` guards)."""
+    par = {id(c): p for p in ast.walk(root) for c in ast.iter_child_nodes(p)}
+    out = []
+    x: ast.AST = node
+    while id(x) in par and x is not root:
+        child, x = x, par[id(x)]
+        if isinstance(x, ast.If):
+            out.append(nnf(x.test, neg=child in x.orelse or any(child is y for st in x.orelse for y in ast.walk(st))))
+        body = getattr(x, "body", None)
+        if isinstance(body, list) and child in body:
+            for prev in body:
+                if prev is child:
+                    break
+                if isinstance(prev, ast.If) and prev.body and isinstance(prev.body[-1], (ast.Continue, ast.Return, ast.Break)) and not prev.orelse:
+                    out.append(nnf(prev.test, neg=True))
+    return out
+
+
+def rule_skip(ctx: Ctx) -> None:
+    P = ctx.prog
     ei = P.func(f"{RUN}._existing_and_missing_indices")
-    loop = [lp for lp in walk_no_nested(ei.node) if isinstance(lp, ast.For)][0]
-    first = loop.body[0]
-    ok = isinstance(first, ast.If) and norm(first.test) == "not select" and isinstance(first.body[-1], ast.Continue)
-    ctx.add("4-skip", ei, first, ok, "unselected indices are skipped before classification" if ok else "unselected indices are classified as existing/missing: a partial run computes (or reads) elements outside its part", key="select-first")
-    ok = "fixed_mask = itertools.repeat(object=True)" in norm(ei.node)
-    ctx.add("4-skip", ei, ei.node, ok, "no selection -> everything selected" if ok else "the no-selection default changed", key="default-all")
+    fm = [p for p in ei.param_names() if "mask" in p]
+    loops = [it for it in iterations(ei.node) if it["kind"] == "loop" and fm and fm[0] in norm(it["iter"])]
+    if loops:
+        lp = loops[0]
+        names = [x.id for x in sorted((x for x in ast.walk(lp["target"]) if isinstance(x, ast.Name)), key=lambda x: (x.lineno, x.col_offset))]
+        sel = names[-1] if names else "?"
+        appends = [c for c in ast.walk(lp["node"]) if isinstance(c, ast.Call) and isinstance(c.func, ast.Attribute) and c.func.attr == "append"]
+        guarded = [c for c in appends if sel in _conds_of(c, lp["node"])]
+        tested = any(isinstance(x, ast.Name) and x.id == sel for s_ in ast.walk(lp["node"]) if isinstance(s_, ast.If) for x in ast.walk(s_.test))
+        ctx.tri("4-skip", ei, lp["node"], bool(appends) and len(guarded) == len(appends), bool(appends) and not tested, "unselected indices are skipped before classification",
+                f"the selection flag `{sel}` is never tested: unselected indices are classified as existing/missing, so a partial run computes (or reads) elements outside its part", "guarding of the classification not recognised", key="select-first")
+    else:
+        ctx.add("4-skip", ei, ei.node, None, "UNDECIDED: loop over the selection mask not found", key="select-first")
     pq = P.func(f"{RUN}._prepare_submit_map_spec")
-    ok = "fixed_mask = _mask_fixed_axes(fixed_indices, func.mapspec, shape, mask)" in norm(pq.node) and "_existing_and_missing_indices(arrays, fixed_mask)" in norm(pq.node)
-    ctx.add("4-skip", pq, pq.node, ok, "the selection restricts the existing/missing split" if ok else "the map path no longer restricts work to the selection", key="map-uses-mask")
-    ok = "if all((arr.has_index(index) for arr in arrays))" in norm(ex.node)
-    ctx.add("4-skip", ex, ex.node, ok, "learner: an element stored for every output is not recomputed" if ok else "the learner recomputes stored elements", key="learner-skip")
+    d = Defs(pq)
+    cs = [c for c in ast.walk(pq.node) if isinstance(c, ast.Call) and dotted(c.func) == "_existing_and_missing_indices"]
+    if cs:
+        m = arg(cs[0], 1, "fixed_mask")
+        t = norm(d.resolve(m)) if m is not None else "None"
+        ctx.tri("4-skip", pq, cs[0], "_mask_fixed_axes(" in t, t == "None", "the selection restricts the existing/missing split", "the map path passes no selection mask: fixed_indices are ignored and every element is computed", f"mask argument `{t[:40]}`", key="map-uses-mask")
+    ex = P.func(f"{AD}._execute_iteration_in_map_spec")
+    cfg = ctx.cfg(ex)
+    runs = cfg.nodes(lambda s: not isinstance(s, (ast.If, ast.For)) and any(isinstance(c, ast.Call) and dotted(c.func) == "_run_iteration_and_process" for c in ast.walk(s)))
+    asks = "has_index(" in norm(ex.node)
+    if runs:
+        gs = guards(cfg, Defs(ex), runs[0])
+        ctx.tri("4-skip", ex, cfg.stmt[runs[0]], any("has_index(" in t for t, _p in gs), not asks, "learner: an element stored for every output is not recomputed",
+                "the learner never asks the storage whether the element exists: stored elements are recomputed", "the existence test does not control the run in a recognised way", key="learner-skip")
 
-    # ------------------------------------------------------------ 5 writes
+
+def rule_writes(ctx: Ctx) -> None:
+    P = ctx.prog
+    ex = P.func(f"{AD}._execute_iteration_in_map_spec")
     calls = [c for c in ast.walk(ex.node) if isinstance(c, ast.Call) and dotted(c.func) == "_run_iteration_and_process"]
-    ok = bool(calls) and any(k.arg == "force_dump" and isinstance(k.value, ast.Constant) and k.value.value is True for k in calls[0].keywords)
-    ctx.add("5-writes", ex, calls[0] if calls else ex.node, ok, "the learner forces the dump (it has no parent post-processing step)" if ok else "learner results of parent-dumped storages are never written", key="force-dump")
+    if calls:
+        fd = [k.value for k in calls[0].keywords if k.arg == "force_dump"]
+        forced = bool(fd) and isinstance(fd[0], ast.Constant) and fd[0].value is True
+        ctx.tri("5-writes", ex, calls[0], forced, not fd or (isinstance(fd[0], ast.Constant) and fd[0].value is False), "the learner forces the dump (it has no parent post-processing step)",
+                "the learner does not force the dump: results of storages that are dumped by the parent are never written", key="force-dump")
     rip = P.func(f"{RUN}._run_iteration_and_process")
-    kwd = [d for a, d in zip(rip.node.args.kwonlyargs, rip.node.args.kw_defaults) if a.arg == "force_dump"]
-    ok = bool(kwd) and isinstance(kwd[0], ast.Constant) and kwd[0].value is False and "force_dump=force_dump" in norm(rip.node)
-    ctx.add("5-writes", rip, rip.node, ok, "force_dump defaults to False and is passed on to _update_array" if ok else "force_dump is not passed on", key="force-dump-forward")
+    ua = [c for c in ast.walk(rip.node) if isinstance(c, ast.Call) and dotted(c.func) == "_update_array"]
+    if ua:
+        fd = [k.value for k in ua[0].keywords if k.arg == "force_dump"]
+        ctx.tri("5-writes", rip, ua[0], bool(fd) and norm(Defs(rip).resolve(fd[0])) == "force_dump", not fd, "force_dump is passed on to _update_array", "force_dump is not passed on to _update_array (its default False applies)", key="force-dump-forward")
     es = P.func(f"{AD}._execute_iteration_in_single")
-    ok = "_submit_func(func, run_info, store, fixed_indices=None, executor=None)" in norm(es.node) and "_process_task(func, kwargs_task, store)" in norm(es.node)
-    ctx.add("5-writes", es, es.node, ok, "single-call learners run and store through the same submit/process pair as map" if ok else "single-call learners bypass the submit/process pair", key="single-learner")
+    t = norm(es.node)
+    ctx.tri("5-writes", es, es.node, "_submit_func(" in t and "_process_task(" in t, False, "single-call learners run and store through the same submit/process pair as map", "", "single-call learner path not recognised", key="single-learner")
 
-    # ------------------------------------------------------------ 6 axes
+
+def rule_axes(ctx: Ctx) -> None:
+    P = ctx.prog
     ia = P.func(f"{AD}._iterate_axes")
     gen = next((g for g in ast.walk(ia.node) if isinstance(g, ast.GeneratorExp) and isinstance(g.elt, ast.Tuple) and len(g.elt.elts) == 2), None)
-    ok, why = False, "_iterate_axes: (parameter, dimension) generator not found"
+    good, bad, why = False, False, "(parameter, dimension) generator not found"
     if gen is not None:
         dim = gen.elt.elts[1]
-        if isinstance(dim, ast.Call) and isinstance(dim.func, ast.Attribute) and dim.func.attr == "index" and norm(dim.args[0]) == "axis":
-            ok, why = True, "dimension = position of the axis name in that input's axes"
+        if isinstance(dim, ast.Call) and isinstance(dim.func, ast.Attribute) and dim.func.attr == "index" and dim.args and norm(dim.args[0]) == "axis":
+            good = True
         elif isinstance(dim, ast.Name):
             enum = [g for g in gen.generators if isinstance(g.iter, ast.Call) and dotted(g.iter.func) == "enumerate" and isinstance(g.target, ast.Tuple) and norm(g.target.elts[0]) == dim.id]
             if enum:
                 nm = norm(enum[0].target.elts[1])
-                ok = any(norm(t) in (f"{nm} == axis", f"axis == {nm}") for g in gen.generators for t in g.ifs)
-                why = "dimension = enumerated position whose name equals the axis" if ok else f"the dimension `{dim.id}` is not tied to the position of `axis` (first position of every matching input is taken)"
-    ctx.add("6-axes", ia, gen if gen is not None else ia.node, ok, why, key="axis-position")
-    ok = "shape.append(shapes[parameter][dim])" in norm(ia.node) and "for indices in iterate_shape_indices(tuple(shape))" in norm(ia.node) and "yield dict(zip(independent_axes, indices))" in norm(ia.node)
-    ctx.add("6-axes", ia, ia.node, ok, "one selection per point of the independent-axes grid" if ok else "_iterate_axes no longer enumerates the full grid of independent axes", key="grid")
+                good = any(norm(t) in (f"{nm} == axis", f"axis == {nm}") for g in gen.generators for t in g.ifs)
+                bad = not good
+                why = f"the dimension `{dim.id}` is not tied to the position of `axis` (the first position of every matching input is taken)"
+    ctx.tri("6-axes", ia, gen if gen is not None else ia.node, good, bad, "dimension = position of the axis name in that input's axes", why, why, key="axis-position")
+
+
+def check(ctx: Ctx) -> None:
+    for rule in (rule_sequence, rule_one_mask, rule_validated, rule_skip, rule_writes, rule_axes):
+        ctx.run(rule)
 
 
 A, R, PR = "pipefunc/map/adaptive.py", "pipefunc/map/_run.py", "pipefunc/map/_prepare.py"
@@ -173,9 +266,7 @@ MUTANTS = [
     Mutant("prepare-run-no-validation", PR, "    _validate_fixed_indices(fixed_indices, inputs, pipeline)\n    run_info = RunInfo.create(", "    run_info = RunInfo.create(", ("C06.3-validated",)),
     Mutant("split-axes-not-validated", A, "        _validate_fixed_indices(_fixed_indices, inputs, pipeline)\n        yield _fixed_indices\n", "        yield _fixed_indices\n", ("C06.3-validated",)),
     Mutant("reduced-predicate-simplified", PR, "    return name in func.parameters and (\n        func.mapspec is None or name not in func.mapspec.input_names\n    )\n", "    return func.mapspec is None and name in func.parameters\n", ("C06.3-validated",), why="seeded C06/2"),
-    Mutant("unknown-axis-accepted", PR, "    if extra:\n        msg = f\"Got extra `fixed_indices`", "    if False:\n        msg = f\"Got extra `fixed_indices`", ("C06.3-validated",)),
-    Mutant("select-after-classification", R, "        if not select:\n            continue\n        if any(mask_values):  # rerun if any of the outputs are missing\n            missing_indices.append(i)\n        else:\n            existing_indices.append(i)\n",
-           "        if any(mask_values):  # rerun if any of the outputs are missing\n            missing_indices.append(i)\n        elif select:\n            existing_indices.append(i)\n", ("C06.4-skip",)),
+    Mutant("selection-never-tested", R, "        if not select:\n            continue\n        if any(mask_values)", "        if any(mask_values)", ("C06.4-skip",)),
     Mutant("learner-no-force-dump", A, "        cache,\n        force_dump=True,\n    )\n", "        cache,\n    )\n", ("C06.5-writes",)),
     Mutant("iterate-axes-first-dim", A, "            (p, axes.index(axis))\n            for p, axes in mapspec_axes.items()\n", "            (p, dim)\n            for p, axes in mapspec_axes.items()\n            for dim, ax in enumerate(axes)\n", ("C06.6-axes",), why="seeded C06/1"),
     Mutant("twin-sequence-local", A, "        return range(prod(external_shape_from_mask(shape, mask)))\n", "        n_elements = prod(external_shape_from_mask(shape, mask))\n        return range(n_elements)\n", twin=True),
